@@ -1,7 +1,8 @@
 """C08 -- partial read returns exactly the selected part and never modifies the file."""
 import random
 from harness import tree as T, fileabs as FA
-from harness.tree import run_all, emit, COQ_IMPORTS, CASETY, CHECKFN
+from harness.tree import COQ_IMPORTS, CASETY, CHECKFN
+from harness import core
 
 PROP = 'C08'
 TARGETS = ['Props/C08.vo', 'Corr/XTree.vo']
@@ -47,7 +48,72 @@ def cases(seed, tier):
         if not two:
             steps.append({'op': 'read', 'file': 0, 'tree': rng.choice([True, False, None])})
         out.append({'tops': tops, 'steps': steps})
+    # nodes of a downstream class whose constructor attaches the new object to a root of its own (this stream comes last: see emit)
+    for i in range(6 if tier == 'quick' else 200):
+        out.append({'kind': 'selfroot', 'names': rng.sample(['scan', 'cube', 'x y', 'é', 'probe'], 3), 'depth': rng.choice([1, 2, 3]), 'kid': rng.random() < 0.6})
     return out
+
+
+def _run_selfroot(args):
+    """file: root/{n0 (Scan) [/kid], plain/.../n1 (Scan)}; every path x tree option x leading slash is read"""
+    c, scratch = args
+    import os, sys, types, numpy as np
+    import emdfile as emd
+    try:
+        class Scan(emd.Array):
+            def __init__(self, *a, **kw):
+                emd.Array.__init__(self, *a, **kw)
+                emd.Root(name=self.name + '_own_root').tree(self)          # attaches itself to a root of its own
+        mod = types.ModuleType('emdverif_selfroot'); mod._emd_hook = True; mod.Scan = Scan
+        sys.modules['emdverif_selfroot'] = mod
+        n0, n1, n2 = c['names']
+        root = emd.Root(name='root')
+        a = Scan(data=np.arange(6).reshape(2, 3), name=n0); root.tree(a, force=True)
+        if c['kid']:
+            a.tree(emd.Node(name='kid'))
+        cur = root
+        path = []
+        for d in range(c['depth']):
+            nd = emd.Node(name='plain%d' % d); cur.tree(nd); cur = nd; path.append(nd.name)
+        b = Scan(data=np.ones(4), name=n1); cur.tree(b, force=True)
+        p = os.path.join(scratch, 'selfroot_%d.h5' % os.getpid())
+        out = {'reads': []}
+        with core.quiet():
+            emd.save(p, root, mode='o')
+            full = emd.read(p)
+            full = full if isinstance(full, emd.Root) else full.root
+        targets = [[n0], path + [n1]] + ([[n0, 'kid']] if c['kid'] else []) + [path[:1]]
+        for tp in targets:
+            want = full.tree('/'.join(tp))
+            for tr in (True, False, None):
+                for lead in ('', '/'):
+                    ep = lead + '/'.join(['root'] + tp)
+                    rec = {'emdpath': ep, 'tree': tr, 'want_cls': type(want).__name__, 'want_name': want.name, 'want_kids': sorted(want._branch._dict.keys())}
+                    try:
+                        with core.quiet():
+                            r = emd.read(p, emdpath=ep, tree=tr)
+                        rec.update({'cls': type(r).__name__, 'name': r.name, 'kids': sorted(r._branch._dict.keys()),
+                                    'root_name': r.root.name if r.root is not None else None})
+                    except BaseException as e:
+                        rec['raised'] = type(e).__name__ + ': ' + str(e)[:100]
+                    out['reads'].append(rec)
+        os.remove(p)
+        return out
+    except BaseException:
+        import traceback
+        return [{'harness_error': traceback.format_exc()[-800:]}]
+    finally:
+        sys.modules.pop('emdverif_selfroot', None)
+
+
+def run_all(cases_, scratch):
+    nt = sum(1 for c in cases_ if c.get('kind') != 'selfroot')
+    return T.run_all(cases_[:nt], scratch) + core.pmap(_run_selfroot, [(c, scratch) for c in cases_[nt:]])
+
+
+def emit(cases_, results):
+    nt = sum(1 for c in cases_ if c.get('kind') != 'selfroot')
+    return T.emit(cases_[:nt], results[:nt])
 
 
 def sub_map(M, p):
@@ -56,6 +122,19 @@ def sub_map(M, p):
 
 
 def oracle(case, obs):
+    if case.get('kind') == 'selfroot':
+        for rec in obs['reads']:
+            where = f"read(emdpath={rec['emdpath']!r}, tree={rec['tree']}) of a node whose class attaches its instances to a root of their own"
+            if 'raised' in rec:
+                return {'key': 'partial-read-raised', 'what': where + f": raised {rec['raised']}"}
+            if rec['tree'] is None:
+                if rec['cls'] != 'Root' or rec['name'] != 'root' or rec['kids'] != rec['want_kids']:
+                    return {'key': 'selection', 'what': where + f": expected the root holding {rec['want_kids']}, got {rec['cls']} {rec['name']!r} {rec['kids']}"}
+            else:
+                exp_kids = rec['want_kids'] if rec['tree'] else []
+                if rec['cls'] != rec['want_cls'] or rec['name'] != rec['want_name'] or rec['kids'] != exp_kids or rec['root_name'] != 'root':
+                    return {'key': 'returned-object', 'what': where + f": expected {rec['want_cls']} {rec['want_name']!r} with children {exp_kids} under root 'root', got {rec['cls']} {rec['name']!r} {rec['kids']} under {rec['root_name']!r}"}
+        return None
     file_slot = None
     for st, o in zip(case['steps'], obs):
         if st['op'] == 'save':
@@ -121,20 +200,23 @@ def oracle(case, obs):
 
 
 def pick_smallest(cases_, idxs):
-    return min(idxs, key=lambda i: T.count_nodes(cases_[i]['tops'][0]))
+    return min(idxs, key=lambda i: T.count_nodes(cases_[i]['tops'][0]) if 'tops' in cases_[i] else 50)
 
 
 def nontrivial(cases_, results):
-    return len({(repr(c['tops']), st.get('emdpath'), st['tree']) for c in cases_ for st in c['steps'] if st['op'] == 'read' and st.get('emdpath') and '/' in st['emdpath'].strip('/')})
+    return len({(repr(c['tops']), st.get('emdpath'), st['tree']) for c in cases_ if 'steps' in c for st in c['steps'] if st['op'] == 'read' and st.get('emdpath') and '/' in st['emdpath'].strip('/')})
 
 
 def samples(cases_, results):
-    return [{'tree': c['tops'][0], 'steps': c['steps'][:6]} for c in cases_[:2]]
+    return [{'tree': c['tops'][0], 'steps': c['steps'][:6]} for c in cases_[:2] if 'tops' in c]
 
 
 def distribution(cases_, results):
     d = {'reads': 0, 'raised': 0, 'missing_paths': 0, 'tree': {}}
     for c, r in zip(cases_, results):
+        if 'steps' not in c:
+            d['self_rooting_class_reads'] = d.get('self_rooting_class_reads', 0) + (len(r.get('reads', [])) if isinstance(r, dict) else 0)
+            continue
         for st, o in zip(c['steps'], r):
             if st['op'] == 'read':
                 d['reads'] += 1; d['raised'] += bool(o.get('raised')); d['missing_paths'] += bool(st.get('expect_missing'))
